@@ -29,9 +29,9 @@ MIN_OUTCOMES = {t: ["value-changed-notified", "cache-hit", "cache-refreshed",
 TIMEOUT = {"quick": 1200, "thorough": 7200}
 
 PROPS = ["total", "total_u", "first", "own", "deep", "msum", "ssum", "cset",
-         "bigkid", "tokname"]
+         "bigkid", "tokname", "selval"]
 CACHED = ["total", "first", "own", "deep", "msum", "ssum", "cset", "bigkid",
-          "tokname"]
+          "tokname", "selval"]
 
 
 class Tok:
@@ -112,6 +112,20 @@ class PNode(HasTraits):
                 return k.value
         return None
 
+    #: the observed path goes through another Property (whose value is
+    #: never in the instance dictionary)
+    sel = Property(Instance(HasTraits), observe="child")
+
+    def _get_sel(self):
+        return self.child
+
+    selval = Property(Int, observe="sel.value")
+
+    @cached_property
+    def _get_selval(self):
+        _count(self, "selval")
+        return self.sel.value if self.sel is not None else -1
+
     #: depends on a trait whose values cannot be compared with == safely
     tok = Any
     tokname = Property(Int, observe="tok")
@@ -182,7 +196,7 @@ def recompute(o, name):
     child = d.get("child")
     if name in ("total", "total_u"):
         return sum(k.value for k in kids)
-    if name == "first":
+    if name in ("first", "selval"):
         return child.value if child is not None else -1
     if name == "own":
         return o.value * 2
